@@ -129,7 +129,7 @@ impl Engine for VcRules {
         let key = hash64(case);
         let mut matched = 0usize;
         let mut rejected = 0usize;
-        let mut fail = |clause: &str, exp: String, obs: String, res: &mut CaseResult| {
+        let fail = |clause: &str, exp: String, obs: String, res: &mut CaseResult| {
             if res.findings.len() < 3 {
                 res.findings.push(Finding::new("C04", clause, exp, obs));
             }
